@@ -21,7 +21,8 @@ from .. import scen
 
 FAMILY["C12"] = {"First", "ArgMax", "Point", "Inside", "Count", "DgiCount", "BestValue", "BestIsTrial", "BestAtPoint", "BestPresent",
                  "SnapCount", "SnapLinks", "SnapOrder", "SnapZ", "SnapHolder", "SnapDelta", "SnapImage", "SnapEnds", "SnapIter",
-                 "ZLogged", "YLogged", "Accuracy", "StopLate", "StopEarly", "SolveReturns", "NoIntExc", "UnexpectedEvaluation"}
+                 "ZLogged", "YLogged", "Accuracy", "StopLate", "StopEarly", "SolveReturns", "NoIntExc", "UnexpectedEvaluation",
+                 "ObservedUnchanged", "RefValue", "RefNotWorse", "RefPointInBox"}
 
 
 def multi_cfg(spec="Spec", solvers=(1, 2), vals=("0", "1"), limit=4, eps="1/8", maxcalls=2, maxbatch=2, maxtrials=4, shared=False,
@@ -51,7 +52,7 @@ def schedules(maxcalls, maxbatch, with_solve):
 class Group:
     """A set of real solvers driven by one schedule; every solver not in a call is observed after every step of any other."""
 
-    def __init__(self, rng, k, tag, lazy, share_problem, share_params=False):
+    def __init__(self, rng, k, tag, lazy, share_problem, share_params=False, force_refine=False):
         self.rng = rng
         self.specs = []
         self.shared_params = None
@@ -80,7 +81,7 @@ class Group:
                     name, f = objective_zoo(_r.Random(fseed), n, lo, up)
                     prob = FnProblem(n, lo, up, f, name)
             self.specs.append(dict(prob=prob, r=r_, eps=eps, limit=limit, m=m, tag="%s/%s#%d" % (prob.name, tag, j + 1),
-                                   listener=rng.choice(["rec", "none"])))
+                                   listener=rng.choice(["rec", "none"]), refine=(not share_params and (force_refine or rng.random() < 0.35))))
         self.runs = {}
         self.lazy = lazy
         self.stack = []
@@ -112,7 +113,7 @@ class Group:
                 self.shared_params = SolverParameters(eps=sp["eps"], r=sp["r"], itersLimit=sp["limit"], evolventDensity=sp["m"], refineSolution=False)
             params = self.shared_params
         return SolverRun(sp["prob"], r=sp["r"], eps=sp["eps"], limit=sp["limit"], m=sp["m"], tag=sp["tag"] + ("/solo" if solo else ""),
-                         listener=sp["listener"], full_snap=True, params=params)
+                         listener=sp["listener"], full_snap=True, params=params, refine=sp["refine"])
 
     def get(self, j):
         if j not in self.runs:
@@ -161,6 +162,8 @@ class Group:
         """solo runs and pairwise records"""
         runs = []
         lists, holders = [], []
+        res = lambda r: [snapshot_solution(r.solver.GetResults())[key] for key in ("ntr", "by", "bv", "acc")]   # noqa: E731
+        final = {j: res(run) for j, run in self.runs.items()}      # read BEFORE any solo run exists (a solo run is one more solver)
         for j, run in sorted(self.runs.items()):
             solo = self.mk(j, solo=True)
             for (name, k) in self.calls[j]:
@@ -171,8 +174,8 @@ class Group:
             meta = {"schedule": tag, "solver": j, "calls": self.calls[j], "objective": self.specs[j - 1]["prob"].name}
             seq = lambda r: [[e["x"], e["ylog"], e["zlog"]] for e in r.events if e["ev"] == "trial"]     # noqa: E731
             pairs.add("SoloSequence", "equal", seq(run), seq(solo), meta)
-            res = lambda r: [snapshot_solution(r.solver.GetResults())[key] for key in ("ntr", "by", "bv", "acc")]   # noqa: E731
-            pairs.add("SoloResult", "equal", res(run), res(solo), meta)
+            pairs.add("SoloResult", "equal", final[j], res(solo), meta)
+            pairs.add("SoloResult", "equal", res(run), final[j], dict(meta, note="result read again after the solo runs of the other solvers"))
             sol = run.solver.GetResults()
             lists.append(id(sol.bestTrials))
             lists.append(id(sol))
@@ -220,6 +223,17 @@ def run(ctx):
             j = rng.randint(1, 3)
             sch.append((j, "dgi", rng.choice([1, 2, 3, 5]), 0) if rng.random() < 0.8 else (j, "solve", 0, 0))
         for j in rng.sample([1, 2, 3], 3):
+            sch.append((j, "solve", 0, 0))
+        g.play(sch)
+        runs += g.finish(pairs, sch)
+    # every solver refines its solution (refineSolution=True): Solutions returned by earlier Solve calls are observed after each later
+    # solver's search and refinement
+    for gi in range(2 if qk else 12):
+        g = Group(rng, 3, "refining%d" % gi, lazy=rng.random() < 0.5, share_problem=False, force_refine=True)
+        sch = []
+        for j in rng.sample([1, 2, 3], 3):
+            if rng.random() < 0.5:
+                sch.append((j, "dgi", rng.choice([2, 4, 7]), 0))
             sch.append((j, "solve", 0, 0))
         g.play(sch)
         runs += g.finish(pairs, sch)
